@@ -144,6 +144,7 @@ func runProperty(repo, lib, prop, tier string) int {
 	timeout := 20
 	if tier == "thorough" {
 		timeout = 90
+		CrossCheck = true
 	}
 	v, err := LoadVerifier(repo, lib, ps.Pkgs)
 	if err != nil {
@@ -321,6 +322,13 @@ func runProperty(repo, lib, prop, tier string) int {
 		"solver_queries":           stats.nBySolver,
 		"integer_model":            "mathematical Int with proved no-overflow obligations; uint32/64 as bit-vectors",
 		"contract_files":           relFiles(v.cs.Files, repo),
+	}
+	if CrossCheck {
+		cov["second_solver_cross_check"] = map[string]any{"sampled": stats.crossChecked, "agreed_unsat": stats.crossAgreed, "undecided_by_second_solver": stats.crossChecked - stats.crossAgreed - len(stats.crossDisagree), "disagreements": stats.crossDisagree}
+		for _, d := range stats.crossDisagree {
+			violations++
+			lines = append(lines, fmt.Sprintf("VIOLATION property=%s replay=%s obligation=solver-disagreement:%s no-failing-input-found", prop, filepath.Join(verifDir, "evidence", prop+".json"), shortKey(d)))
+		}
 	}
 	if len(knownObls) > 0 {
 		cov["known_finding_obligations"] = knownObls
